@@ -275,6 +275,8 @@ def run_record(record, want_record=True, gen=None):
             oracles.check_run_internal(cfg, ref, viol, stats, sig_base, which="reference")
             if not viol:
                 oracles.reestimate_from_dir(cfg, ref, viol, stats, sig_base)
+            if not viol:
+                oracles.check_stored_equals_returned(cfg, ref, viol, stats, sig_base)
         finally:
             Settings.set_atol(atol_saved)
         if not viol:
